@@ -31,6 +31,8 @@ def harnesses_for(prop, tier):
             continue
         if tier == 'quick' and h.get('quick_only_for') and prop not in h['quick_only_for']:
             continue   # expensive harness: in the quick tier it runs only under its home property
+        if tier == 'thorough' and h.get('thorough_only_for') and prop not in h['thorough_only_for']:
+            continue   # very expensive harness: run once, under its home property
         out.append(dict(h, name=name))
     return out
 
